@@ -35,6 +35,7 @@ MUTANTS = [
     ("C02", C, "num_frames = max(0, (len(signal) + frame_shift // 2) // frame_shift)", "num_frames = max(0, (len(signal) + (frame_shift - 1) // 2) // frame_shift)", "K", "frame count rounding"),
     ("C02", C, "                if start_idx == 0 and trunc_len:\n                    val -= self._nonlin_op(half_spect[:1] * truncated_filt[:1])\n", "", "K", "partial revert of fix D30 (0 Hz bin)"),
     ("C14", T, "            if mod == 0 and ni >= 0 and ni < filt_len:", "            if mod == 1 and ni >= 0 and ni < filt_len:", "K", "fix D30 on odd sizes only (torch)"),
+    ("C14", T, "    sig = sig.contiguous().as_strided(", "    sig = sig.as_strided(", "K", "revert fix D32 (non-contiguous signal)"),
     ("C03", C, "        if not np.iscomplexobj(buff):\n            # numpy >= 2 no longer upcasts the transform of a non-f64 buffer\n            buff = buff.astype(np.float64, copy=False)\n", "", "K", "revert fix D5"),
     ("C03", C, "            dirac_filter[self._translation] = 1", "            dirac_filter[0] = 1", "K", "energy impulse position"),
     ("C03", C, "        vals = self._y_buf[0, 0, :] + self._y_buf[1, 1, :]", "        vals = self._y_buf[0, 1, :] + self._y_buf[1, 0, :]", "K", "window halves"),
